@@ -72,8 +72,21 @@ def pattern_of(rng, v, names, depth=0):
             ents = keep + [(None, X.extra(names.fresh() if rng.random() < 0.7 else None))]
         return X.pdict(ents)
     if v[0] == "set" and v[1] and all(x[0] == "num" for x in v[1]):
-        lits = rng.sample(v[1], rng.randrange(0, len(v[1])))
-        return X.pset([X.item(X.pexpr(x)) for x in lits] + [X.extra(names.fresh())])
+        r = rng.random()
+        if r < 0.4:       # some literals and ...rest
+            lits = rng.sample(v[1], rng.randrange(0, len(v[1])))
+            return X.pset([X.item(X.pexpr(x)) for x in lits] + [X.extra(names.fresh() if rng.random() < 0.8 else None)])
+        if r < 0.7:       # all literals but one, and one name for the member left over
+            lits = rng.sample(v[1], len(v[1]) - 1)
+            items = [X.item(X.pexpr(x)) for x in lits] + [X.item(X.pvar(names.fresh()))]
+            rng.shuffle(items)
+            return X.pset(items)
+        if r < 0.85 and len(v[1]) >= 2:      # one name but two or more members left over: must not match
+            lits = rng.sample(v[1], rng.randrange(0, len(v[1]) - 1))
+            items = [X.item(X.pexpr(x)) for x in lits] + [X.item(X.pvar(names.fresh()))]
+            rng.shuffle(items)
+            return X.pset(items)
+        return X.pset([X.item(X.pexpr(x)) for x in v[1]])      # exactly these members
     return X.pexpr(v)
 
 
@@ -107,6 +120,15 @@ def perturb(rng, v):
             i = rng.randrange(len(attrs))
             attrs[i] = (attrs[i][0], perturb(rng, attrs[i][1]))
             return X.tup(attrs)
+    if v[0] == "set" and v[1] and all(x[0] == "num" for x in v[1]):
+        items = list(v[1])
+        if k < 0.4:
+            return X.set_(items + [N(50 + rng.randrange(3))])
+        if k < 0.6:
+            return X.set_(items + [N(50), N(51)])
+        if k < 0.85 and len(items) > 1:
+            del items[rng.randrange(len(items))]
+            return X.set_(items)
     if v[0] == "num":
         return rng.choice([N(v[1] + 1), X.string(str(int(v[1]))) if v[1] == int(v[1]) else N(0)])
     if v[0] == "str":
@@ -150,8 +172,12 @@ def gen_cases(rng, tier):
     n = 700 if tier == "quick" else 6000
     for _ in range(n):
         v = rand_value(rng)
+        if rng.random() < 0.1:      # set patterns get their own share
+            v = X.set_([N(i) for i in rng.sample(range(5), rng.randrange(2, 5))])
         names = Names(rng)
         p = pattern_of(rng, v, names)
+        while v[0] == "set" and v[1] and p[0] in ("pvar", "pwild") and rng.random() < 0.8:
+            p = pattern_of(rng, v, names)
         if has_nondet(p):
             continue
         target = v if rng.random() < 0.55 else perturb(rng, v)
@@ -201,7 +227,7 @@ def main(tier, seed, replay=None):
         if (outs.get(c["id"]) or {}).get("st") == "ok":
             nmatch += 1
     evalcheck.stats(run, cases, outs, codes,
-                    "random nested values (arrays, tuples, dicts, sets, numbers, strings) and patterns derived from them (names incl. repeated ones, _, literal and (expr) patterns, nested array/tuple/dict/set patterns, ...rest at any position, trailing fallbacks) matched against the value itself or a near-miss of it (one extra / missing element, offset, hole, one component changed, wrong kind) in `let P = V; (names)`, `(\\\\P body)(V)` and `cond V {P1:.., P2:.., _:0}`",
+                    "random nested values (arrays, tuples, dicts, sets, numbers, strings) and patterns derived from them (names incl. repeated ones, _, literal and (expr) patterns, nested array/tuple/dict/set patterns (set patterns: literals with ...rest, literals with one name and exactly one / two or more members left over, literals only), ...rest at any position, trailing fallbacks) matched against the value itself or a near-miss of it (one extra / missing element, offset, hole, one component changed, wrong kind) in `let P = V; (names)`, `(\\\\P body)(V)` and `cond V {P1:.., P2:.., _:0}`",
                     {"form_histogram": kinds, "programs_that_matched": nmatch, "exhaustive": False})
     run.assumptions = ["patterns with more than one of (...rest | fallback) per level are rejected by the implementation as 'non-deterministic' and are not generated"]
     return run.finish(proof)
